@@ -1,5 +1,5 @@
 import Reduino.Lang.Syntax
-/- Python semantics of the source fragment (big-step, fuel-indexed). -/
+/- Python semantics of the source fragment (big-step, fuel-indexed).  W6: a call of a helper runs the carried body in a fresh frame. -/
 namespace Reduino.Lang.Py
 
 /-- Python expression evaluation: bools are ints in arithmetic and comparisons (`& | ^` of two bools is a bool), `and`/`or` return an OPERAND,
